@@ -654,8 +654,10 @@ def _vars(*ds):
 # The unchanged code reads a Natural operand through the SIGNED member of the number union whenever it stands next
 # to an integral operand, and also when it is the RIGHT operand of a Real (QExpression.hpp, the six comparison
 # operators; notes/design-expr.md "Natural operands >= 2^63").  Such results are recorded, not judged, until the
-# repair proposed in notes/fix-expr-natural-above-int63-compare.diff is in the tree; then set this to True.
-NAT63_JUDGED = False
+# repair proposed in notes/fix-expr-natural-above-int63-compare.diff is in the tree; then make this True
+# (C04_NAT63_JUDGED=1 in the environment turns it on for a trial run against a patched copy).
+import os as _os
+NAT63_JUDGED = _os.environ.get("C04_NAT63_JUDGED", "0") == "1"
 
 
 def _expect(ka, a, kb, b, op):
